@@ -14,6 +14,7 @@ strings (`List Nat` of code units), composed with C02's parser model (`Props.C02
 -/
 import VaxisModel.Lemmas.SgrBytes
 import VaxisModel.Props.C18
+import VaxisModel.Lemmas.SgrFlowExpected
 
 namespace VaxisModel.Props.C18Bytes
 open VaxisModel VaxisModel.Gen VaxisModel.Model.Sgr VaxisModel.Model.SgrBytes VaxisModel.Lemmas.Sgr
@@ -135,6 +136,27 @@ theorem producers_consumers_agree_bytes (cl : Str → Nat) (q : Seq) (hq : emitt
     simp [parseStyled, parseToks, h1]
   · rw [← hb, newStyledStringB_toks cl {} _ hgood]
     simp [ssParse, ssParseToks, h3]
+
+/-! ### The string-level code the byte-level model transcribes, pinned statement by statement (regenerated every run) -/
+
+open VaxisModel.Lemmas in
+/-- `NewStyledString`: the three cases of its loop in this order (CSI, OSC 8, default), the CSI case's statements (`TrimPrefix`,
+    `Cut(s, "m")`, the two early exits, `Split(seq, ";")`, the index loop), the OSC 8 case (`Cut(s, ST)`, `Cut(seq, ";")`), the
+    clustering call of the default case, and `legacySGRColor` — what `SgrBytes.nssLoop`, `cutM`, `splitParams`, `cutST` and
+    `Sgr.ssLegacy` transcribe. -/
+theorem facts_new_styled_string :
+    SgrCases.nssCases = SgrFlowExpected.nssCases ∧ SgrCases.nssCsi = SgrFlowExpected.nssCsi ∧
+    SgrCases.nssOsc8 = SgrFlowExpected.nssOsc8 ∧ SgrCases.nssDefault = SgrFlowExpected.nssDefault ∧
+    SgrCases.legacySGRColorBody = SgrFlowExpected.legacySGRColorBody := by decide +kernel
+
+open VaxisModel.Lemmas in
+/-- `ParseStyledString`'s loop over the parser's items (`SgrBytes.cellsOf`: Print ⇒ a cell with the current style; CSI with final
+    `m`, whatever its intermediates ⇒ `parseSGR`; everything else ignored) and the tails of the two encoders (close an open
+    hyperlink, `sgrReset` unless the cursor style is the zero value: `SgrLinks.encodeFromBL`). -/
+theorem facts_parse_and_tails :
+    SgrCases.parseStyledLoop = SgrFlowExpected.parseStyledLoop ∧
+    SgrCases.encodeCellsTail = SgrFlowExpected.encodeCellsTail ∧ SgrCases.ssEncodeTail = SgrFlowExpected.ssEncodeTail := by
+  decide +kernel
 
 /-! ### Non-vacuity -/
 
